@@ -189,9 +189,10 @@ var errSentinel = errors.New("injected read failure")
 
 // chunkedReader serves data in chunks of a fixed size (0: as much as asked for, -2: half of what is asked for), EOF at the end.
 type chunkedReader struct {
-	data  []byte
-	pos   int
-	chunk int
+	data   []byte
+	pos    int
+	chunk  int
+	endErr error // returned at the end of data (nil: io.EOF)
 }
 
 func (c *chunkedReader) Read(p []byte) (int, error) {
@@ -199,6 +200,9 @@ func (c *chunkedReader) Read(p []byte) (int, error) {
 		return 0, nil
 	}
 	if c.pos >= len(c.data) {
+		if c.endErr != nil {
+			return 0, c.endErr
+		}
 		return 0, io.EOF
 	}
 	n := len(p)
@@ -218,6 +222,9 @@ type byteChunked struct{ *chunkedReader }
 
 func (b byteChunked) ReadByte() (byte, error) {
 	if b.pos >= len(b.data) {
+		if b.endErr != nil {
+			return 0, b.endErr
+		}
 		return 0, io.EOF
 	}
 	b.pos++
@@ -515,6 +522,29 @@ func main() {
 					run.Report("C20|stream-chunked|inverse|ReadBytes", fmt.Sprintf("ReadBytes(%d) read in chunks of %d returned %d bytes, err %v", n, chunk, len(gb), er.Err), c)
 				} else if cr.pos != 4+n {
 					run.Report("C20|stream-chunked|consumed|ReadBytes", fmt.Sprintf("ReadBytes(%d) consumed %d bytes of the stream", n, cr.pos-4), c)
+				}
+				// the same stream cut short: the failure has to be reflected in the reader's error state, for every length
+				// class (below / at / above the pre-allocation threshold) and both end-of-data styles
+				for _, cut := range []int{0, 3, 4, 4 + n/2, 4 + n - 1} {
+					if cut < 0 || cut >= 4+n {
+						continue
+					}
+					for _, e := range []error{io.EOF, errSentinel} {
+						cr := &chunkedReader{data: enc[:cut], chunk: chunk, endErr: e}
+						var src io.Reader = cr
+						if byteReader {
+							src = byteChunked{cr}
+						}
+						er := iohelp.NewErrorReader(src)
+						var got string
+						cc := map[string]any{"prim": "String", "length": n, "chunk": chunk, "reader_offers_ReadByte": byteReader, "stream_cut_at": cut, "end": e.Error()}
+						if pk, what := catch(func() { got = iohelp.ReadString(er) }); pk {
+							run.Report("C20|stream-truncated|panic|ReadString", "ReadString panicked on a truncated stream: "+what, cc)
+						} else if er.Err == nil {
+							run.Report("C20|stream-truncated|no-latch|ReadString", fmt.Sprintf("ReadString of a %d-byte string whose stream ends after %d of %d bytes (%v) returned %d bytes and left ErrorReader.Err nil", n, cut, 4+n, e, len(got)), cc)
+						}
+						trans++
+					}
 				}
 				trans += 2
 				outcomes.Add(fmt.Sprintf("chunked%d/%d/%v", n, chunk, byteReader))
